@@ -1,5 +1,6 @@
 """C02 — serial queues run one item at a time, in submission order."""
 from lanetrace import run_lane, forced
+from tracecheck import run_traces
 
 META = {
     "text": "Lean theorems over the serial-lane protocol model (any number of threads, any client program, every interleaving of the model's atomic steps): at most one thread "
@@ -22,8 +23,11 @@ def run(ctx):
     cfg = [(4, 400, 1), (8, 300, 1), (12, 150, 1), (6, 300, 0)] if not ctx.thorough else [(4, 3000, 1), (8, 2000, 1), (12, 1500, 1), (16, 1000, 1), (6, 2000, 0), (2, 4000, 1)]
     run_lane(ctx, cfg, what="c02", order_property=True)
     forced(ctx, "f15_sync_overtake", "F15", "lane:order:sync-fastpath-overtakes:forced-F15", "F15")
+    # "including the main queue": the main queue drained run-loop style, with nested run loops inside items
+    mq = [[ctx.seed * 100 + i, 2 + i, 1500 if ctx.thorough else 250] for i in range(4 if ctx.thorough else 2)]
+    run_traces(ctx, "c02_mainq", mq, None, None, "L-api main queue", "mainq", timeout=200)
     ctx.cov["rule"] = ("tr_lane workloads restricted to the serial queue (plus one mixed run): every item's start/end stamps and every submission's call/return stamps are checked for "
-                       "overlap and order; every recorded dq_state transition must be a step of the serial models. distinct_nontrivial = transitions explained by the model")
+                       "overlap and order; every recorded dq_state transition must be a step of the serial models; c02_mainq: the main queue drained through the run-loop callback with nested callback calls inside items (no overlap, asynchronous items in submission order, exactly once). distinct_nontrivial = transitions explained by the model")
 
 
 def replay(ctx, obj):
